@@ -1,7 +1,7 @@
 /-
-C33 model: the size-limit functions are *interpreted from the generated statement
-lists* (Gen/Limits.lean), with the numeric operands supplied by an environment; encoded
-lengths come from the msgpack/codec model, so they are exact.
+C33 model: the size-limit functions are *interpreted from the generated step lists*
+(Gen/Limits.lean), with the numeric operands supplied by an environment; encoded lengths
+come from the msgpack/codec model, so they are exact.
 -/
 import SerfModel.Gen.Limits
 import SerfModel.Model.Codec
@@ -16,44 +16,49 @@ structure Cfg where
 
 def hard : Nat := Gen.Limits.userEventSizeLimitConst
 
-def ueEnv (cfg : Cfg) (nameLen payloadLen encLen : Nat) (s : String) : Nat :=
-  if s = "len(name) + len(payload)" then nameLen + payloadLen
-  else if s = "len(raw)" then encLen
-  else if s = "s.config.UserEventSizeLimit" then cfg.ueLimit
-  else if s = "UserEventSizeLimit" then hard
-  else 0
+/-- UserEvent(name, payload, coalesce): parameters 0 and 1 are the name and the payload -/
+def ueEnv (cfg : Cfg) (nameLen payloadLen encLen : Nat) : Opnd → Nat
+  | .sumLenParams is => if is = [0, 1] then nameLen + payloadLen else 0
+  | .lenEnc _ _ _ => encLen
+  | .cfg f => if f = "UserEventSizeLimit" then cfg.ueLimit else 0
+  | .const n => n
+  | .other _ => 0
 
-/-- (*Serf).UserEvent with `len(name)`, `len(payload)` and `len(raw)` given -/
+/-- (*Serf).UserEvent with `len(name)`, `len(payload)` and the encoded length given -/
 def userEvent (cfg : Cfg) (nameLen payloadLen encLen : Nat) : Outcome :=
   run (ueEnv cfg nameLen payloadLen encLen) (fun _ => false) Gen.Limits.userEvent []
 
-/-- `len(raw)` of a user event: exact, from the codec model -/
+/-- encoded length of a user event: exact, from the codec model -/
 def ueEncLen (ltime : Nat) (name : Bytes) (payload : Option Bytes) (cc : Bool) : Nat :=
   (encodeMessage 3 (UserEv.toMP { ltime := ltime, name := name, payload := payload, cc := cc })).length
 
-def qEnv (cfg : Cfg) (encLen : Nat) (s : String) : Nat :=
-  if s = "len(raw)" then encLen
-  else if s = "s.config.QuerySizeLimit" then cfg.qLimit
-  else 0
+def qEnv (cfg : Cfg) (encLen : Nat) : Opnd → Nat
+  | .lenEnc _ _ _ => encLen
+  | .cfg f => if f = "QuerySizeLimit" then cfg.qLimit else 0
+  | .const n => n
+  | _ => 0
 
-/-- (*Serf).Query from the point where the message is built -/
-def query (cfg : Cfg) (encLen : Nat) : Outcome :=
-  run (qEnv cfg encLen) (fun _ => false) Gen.Limits.query []
+/-- (*Serf).Query; `tf` decides the non-size tests (protocol version too old) -/
+def queryT (cfg : Cfg) (encLen : Nat) (tf : String → Bool) : Outcome :=
+  run (qEnv cfg encLen) tf Gen.Limits.query []
+
+def query (cfg : Cfg) (encLen : Nat) : Outcome := queryT cfg encLen (fun _ => false)
 
 def qEncLen (q : Query) : Nat := (encodeMessage 4 q.toMP).length
 
-def rEnv (cfg : Cfg) (len : Nat) (s : String) : Nat :=
-  if s = "len(resp)" then len
-  else if s = "len(raw)" then len
-  else if s = "q.serf.config.QueryResponseSizeLimit" then cfg.rLimit
-  else if s = "s.config.QueryResponseSizeLimit" then cfg.rLimit
-  else 0
+def rEnv (cfg : Cfg) (len : Nat) : Opnd → Nat
+  | .sumLenParams is => if is = [0] then len else 0
+  | .lenEnc _ _ _ => len
+  | .cfg f => if f = "QueryResponseSizeLimit" then cfg.rLimit else 0
+  | .const n => n
+  | .other _ => 0
 
-/-- (*Query).respondWithMessageAndResponse: the `check` step runs checkResponseSize on the same length -/
-def respondWith (cfg : Cfg) (respLen : Nat) : Outcome :=
-  run (rEnv cfg respLen)
-    (fun c => c = "q.checkResponseSize(raw)" && !(run (rEnv cfg respLen) (fun _ => false) Gen.Limits.checkResponseSize []).ok)
-    Gen.Limits.respondWithMessageAndResponse []
+/-- (*Query).respondWithMessageAndResponse(raw, resp): parameter 0 is the ENCODED response;
+`tf` decides the non-size tests (already responded, past the deadline) -/
+def respondWithT (cfg : Cfg) (respLen : Nat) (tf : String → Bool) : Outcome :=
+  run (rEnv cfg respLen) tf Gen.Limits.respondWithMessageAndResponse []
+
+def respondWith (cfg : Cfg) (respLen : Nat) : Outcome := respondWithT cfg respLen (fun _ => false)
 
 /-- (*Serf).relayResponse once it has decided to relay -/
 def relay (cfg : Cfg) (relayLen : Nat) : Outcome :=
